@@ -127,7 +127,8 @@ def make_obj(case):
     b.nord = case['nord']
     b.npoly = 1
     b.mask = np.array(case['mask'], dtype=bool)
-    b.coeff = bf_(case['coeff'])
+    # an integer-typed coefficient vector (np.arange(nc), a row of an integer identity) is a coefficient vector too
+    b.coeff = bf_(case['coeff']).astype(case.get('coeffdtype', 'float64'))
     b.icoeff = np.zeros_like(b.coeff)
     b.xmin, b.xmax, b.funcname = 0.0, 1.0, 'legendre'
     return b
@@ -359,8 +360,12 @@ def eval_case(rng, t, k, f32, data=None, mask=None, n_in=None):
         perm = np.lexsort((-np.arange(x.size), x))
     else:
         perm = x.argsort(kind='stable' if pk == 'stable' else 'quicksort')
-    return {'stream': 'eval', 'nord': k, 'bk': fb(t), 'bkF32': bool(f32), 'mask': [True] * N if mask is None else mask,
-            'coeff': fb(gen_coeff(rng, nc)), 'x': fb(x), 'perm': [int(p) for p in perm], 'order': order, 'permkind': pk}
+    cf = gen_coeff(rng, nc)
+    case = {'stream': 'eval', 'nord': k, 'bk': fb(t), 'bkF32': bool(f32), 'mask': [True] * N if mask is None else mask,
+            'coeff': fb(cf), 'x': fb(x), 'perm': [int(p) for p in perm], 'order': order, 'permkind': pk}
+    if all(float(c).is_integer() and abs(c) < 2**31 for c in cf) and rng.random() < 0.5:
+        case['coeffdtype'] = rng.choice(['int64', 'int32'])
+    return case
 
 
 def gen_direct_knots(rng):
@@ -487,6 +492,8 @@ def check_eval(ctx, case, impl, model, model_rat):
     n = N - k
     allgood = all(case['mask'])
     ctx.count('eval:%s:k=%d:%s' % ('err:' + impl['err'] if 'err' in impl else 'ok', k, 'unmasked' if allgood else 'masked'))
+    if 'coeffdtype' in case:
+        ctx.count('eval:coeff-dtype:' + case['coeffdtype'])
     # ---- what both parts need
     if 'err' in impl:
         if 'err' not in model or impl.get('err') != model.get('err'):
